@@ -1,6 +1,7 @@
 package harness
 
 import (
+	"github.com/vmware/go-ipfix/pkg/collector"
 	"math/rand/v2"
 	"time"
 
@@ -109,6 +110,11 @@ func genC02(seed uint64, tier string) *plan.Plan {
 		}
 		pl.Ops = ops
 	}
+	if r.IntN(6) == 0 {
+		// a collecting process in the same program has just been sent, by some other vendor's exporter,
+		// a template that announces fixed lengths for variable-length elements (see c01.go)
+		pl.Cfg["foreign"] = int64(1 + r.IntN(3))
+	}
 	genSchedule(r, pl, 2, 60*len(pl.Ops))
 	return pl
 }
@@ -117,6 +123,25 @@ func runC02(pl *plan.Plan, out *plan.Outcome) {
 	env := newEnv(pl, out, keepLogFlag)
 	var sess *expSession
 	env.Go("app", func() {
+		if fl := cfgOr(pl, "foreign", 0); fl > 0 {
+			if tmsg, dmsg := foreignMessages(pl, fl); tmsg != nil {
+				if cp, err := collector.InitCollectingProcess(collector.CollectorInput{Address: "10.0.0.9:4739", Protocol: "udp", MaxBufferSize: 65535, TemplateTTL: 7200}); err == nil {
+					env.Count("fault.foreign_exporter_with_fixed_length_strings", 1)
+					env.Go("drain", func() {
+						for {
+							var ok bool
+							Block("consume", func() { _, ok = <-cp.GetMsgChan() })
+							if !ok {
+								return
+							}
+						}
+					})
+					Block("decode", func() { cp.VerifDecodePacket(tmsg, "10.0.3.1:999") })
+					Block("decode", func() { cp.VerifDecodePacket(dmsg, "10.0.3.1:999") })
+					cp.CloseMsgChan()
+				}
+			}
+		}
 		s, err := newExpSession(env)
 		if err != nil {
 			out.Trouble = "exporter init failed: " + err.Error()
